@@ -449,8 +449,14 @@ func (c *Crew) RunMachines(ctx context.Context, msg interface{}) (map[string]*co
 	c.Logf("RunMachines routing to %#v", mids)
 
 	acc := make(map[string]*core.Walked, len(mids))
+	presented := make(map[string]bool, len(mids))
 
 	for _, mid := range mids {
+		if presented[mid] {
+			// A machine sees a message at most once.
+			continue
+		}
+		presented[mid] = true
 		if m, have := c.Machines[mid]; have {
 			walked, err := c.RunMachine(ctx, msg, m)
 			if err != nil {
